@@ -558,6 +558,20 @@ def equals(ex, a, b):
         return mk_bool(z3.If(a.c, zbool(unwrap_bool(equals(ex, a.a, b))), zbool(unwrap_bool(equals(ex, a.b, b)))))
     if isinstance(b, CondV):
         return mk_bool(z3.If(b.c, zbool(unwrap_bool(equals(ex, a, b.a))), zbool(unwrap_bool(equals(ex, a, b.b)))))
+    if type(a).__name__ == "SortedSetV" or type(b).__name__ == "SortedSetV":
+        ss, xs = (a, b) if type(a).__name__ == "SortedSetV" else (b, a)
+        if isinstance(xs, SeqV) and xs.is_concrete_len() and ss.seq.is_concrete_len():
+            xi, si = xs.concrete_items(), ss.seq.concrete_items()
+            if len(xi) == len(si) and all(_struct_eq(p, q) for p, q in zip(xi, si)):
+                # xs == sorted(set(xs))  <=>  xs is strictly ascending
+                from . import lib
+
+                lib.used("xs == sorted(set(xs)) iff xs is strictly ascending")
+                r = True
+                for p, q in zip(xi, xi[1:]):
+                    r = and_(ex, r, compare(ex, "<", p, q))
+                return r
+        raise Unsupported("comparison with sorted(set(..)) of a different sequence")
     if type(a).__name__ == "JoinV" or type(b).__name__ == "JoinV":
         if type(a).__name__ == "JoinV" and type(b).__name__ == "JoinV":
             return and_(ex, equals(ex, a.sep, b.sep), seq_equal(ex, a.seq, b.seq))
@@ -1329,14 +1343,14 @@ def _flatten_concat(t, out):
         out.append(t)
 
 
-def rope_fields(t):
-    """Split a string term at the ';' characters of its literal pieces -> list of fields (each a list of pieces)."""
+def rope_fields(t, sep=";"):
+    """Split a string term at the separator characters of its literal pieces -> list of fields (each a list of pieces)."""
     pieces = []
     _flatten_concat(t, pieces)
     fields = [[]]
     for p in pieces:
         if z3.is_string_value(p):
-            parts = p.as_string().split(";")
+            parts = p.as_string().split(sep)
             for k, part in enumerate(parts):
                 if k > 0:
                     fields.append([])
@@ -1368,6 +1382,59 @@ def field_equal(a, b):
         cb, b1, b2 = b.children()
         if z3.eq(ca, cb):
             return z3.If(ca, field_equal(a1, b1), field_equal(a2, b2))
+    for lit, fn in ((a, b), (b, a)):
+        if z3.is_string_value(lit) and z3.is_app(fn) and fn.decl().kind() == z3.Z3_OP_UNINTERPRETED:
+            sv = lit.as_string()
+            if fn.decl().name() == "istr":
+                # str(int) of a concrete value is its decimal numeral (and only that)
+                if sv.lstrip("-").isdigit() and str(int(sv)) == sv:
+                    return fn.children()[0] == int(sv)
+                return z3.BoolVal(False)
+            if fn.decl().name() == "rstr":
+                try:
+                    fv = float(sv)
+                except ValueError:
+                    return z3.BoolVal(False)
+                if repr(fv) == sv and fv == fv and fv not in (float("inf"), float("-inf")):
+                    from fractions import Fraction
+
+                    return fn.children()[0] == z3.RealVal(str(Fraction(fv)))
+    if z3.is_app(a) and a.decl().kind() == z3.Z3_OP_ITE:
+        c, x, y = a.children()
+        return z3.If(c, field_equal(x, b), field_equal(y, b))
+    if z3.is_app(b) and b.decl().kind() == z3.Z3_OP_ITE:
+        c, x, y = b.children()
+        return z3.If(c, field_equal(a, x), field_equal(a, y))
+    # quoted numbers: "\"" ++ rstr(x) ++ "\""
+    pa, pb = [], []
+    _flatten_concat(a, pa)
+    _flatten_concat(b, pb)
+    if len(pa) == len(pb) and len(pa) > 1:
+        return z3.And(*[field_equal(x, y) for x, y in zip(pa, pb)])
+    # a literal against literal-prefix ++ X ++ literal-suffix: compare the middle
+    for lit, pieces in ((pa, pb), (pb, pa)):
+        if len(lit) == 1 and z3.is_string_value(lit[0]) and len(pieces) > 1:
+            sv = lit[0].as_string()
+            ps = list(pieces)
+            ok = True
+            while ps and z3.is_string_value(ps[0]):
+                pre = ps.pop(0).as_string()
+                if not sv.startswith(pre):
+                    ok = False
+                    break
+                sv = sv[len(pre):]
+            while ok and ps and z3.is_string_value(ps[-1]):
+                suf = ps.pop().as_string()
+                if not sv.endswith(suf):
+                    ok = False
+                    break
+                sv = sv[: len(sv) - len(suf)]
+            if not ok:
+                return z3.BoolVal(False)
+            if len(ps) == 1:
+                return field_equal(z3.StringVal(sv), ps[0])
+            if not ps:
+                return z3.BoolVal(sv == "")
     return a == b
 
 
@@ -1375,9 +1442,11 @@ def record_equal(ex, a, b):
     """a record string (rope built by the code) against a spec record: field-wise equality, which implies equality
     of the strings (and is equivalent to it when the fields are separator-free)."""
     if isinstance(a, RecV) and isinstance(b, RecV):
-        if a.kind != b.kind or len(a.fields) != len(b.fields):
+        if len(a.fields) != len(b.fields) or a.sep != b.sep:
             return False
-        return mk_bool(z3.And(*[field_equal(term(x), term(y)) for x, y in zip(a.fields, b.fields)]))
+        if isinstance(a.kind, str) and isinstance(b.kind, str) and a.kind != b.kind:
+            return False
+        return mk_bool(z3.And(field_equal(term(a.kind), term(b.kind)), *[field_equal(term(x), term(y)) for x, y in zip(a.fields, b.fields)]))
     rec, s = (a, b) if isinstance(a, RecV) else (b, a)
     if isinstance(s, str):
         st = z3.StringVal(s)
@@ -1385,8 +1454,8 @@ def record_equal(ex, a, b):
         st = s.t
     else:
         return False
-    fields = rope_fields(st)
-    want = [z3.StringVal(rec.kind)] + [term(f) for f in rec.fields]
+    fields = rope_fields(st, rec.sep)
+    want = [term(rec.kind)] + [term(f) for f in rec.fields]
     if len(fields) != len(want):
         # different number of separators in the literal skeleton: fall back to plain string equality
         return mk_bool(st == record_string(rec))
@@ -1394,8 +1463,26 @@ def record_equal(ex, a, b):
 
 
 def record_string(rec):
-    parts = [z3.StringVal(rec.kind)]
+    parts = [term(rec.kind)]
     for f in rec.fields:
-        parts.append(z3.StringVal(";"))
+        parts.append(z3.StringVal(rec.sep))
         parts.append(term(f))
     return z3.Concat(*parts)
+
+
+def _struct_eq(p, q):
+    if p is q:
+        return True
+    if isinstance(p, WellV) and isinstance(q, WellV):
+        return _teq(p.r, q.r) and _teq(p.c, q.c)
+    if isinstance(p, Sym) and isinstance(q, Sym):
+        return z3.eq(p.t, q.t)
+    if isinstance(p, EnumV) and isinstance(q, EnumV):
+        return _struct_eq(p.value, q.value) if not (isinstance(p.value, int) and isinstance(q.value, int)) else p.value == q.value
+    return type(p) == type(q) and is_concrete_scalar(p) and p == q
+
+
+def _teq(a, b):
+    if isinstance(a, int) and isinstance(b, int):
+        return a == b
+    return z3.is_expr(a) and z3.is_expr(b) and z3.eq(a, b)
